@@ -223,6 +223,15 @@ func (p c15) Run(c *core.Ctx) {
 		}
 		srcs = append(srcs, s)
 	}
+	// the same source may be added again later (e.g. re-adding the command-line loader so that it
+	// overrides defaults added in between): it then takes part in the merge a second time
+	if len(srcs) >= 2 && c.Rng.Intn(4) == 0 {
+		again := *srcs[c.Rng.Intn(len(srcs)-1)]
+		if again.kind == "raw" || again.kind == "args" {
+			again.label += "(again)"
+			srcs = append(srcs, &again)
+		}
+	}
 	// option sequence
 	var opts []app.SettingOption
 	var effective []*c15Source
@@ -329,11 +338,23 @@ func (p c15) Run(c *core.Ctx) {
 		extra = append(extra, holder)
 	}
 	r := world.Build(&world.Scenario{}, world.Options{Extra: extra, AppOptions: opts})
+	probes := 0
 	for _, s := range srcs {
 		if ll, ok := s.ld.(world.LoggedLoader); ok {
 			ll.Core().Log = r.Log
+			if c.Rng.Intn(2) == 0 {
+				// this loader inspects the configuration loaded so far (reads every path of the final model)
+				probePaths := append([]string(nil), paths...)
+				ll.Core().Probe = func() {
+					for _, pth := range probePaths {
+						r.App.Get(pth)
+					}
+				}
+				probes++
+			}
 		}
 	}
+	c.Count("probing_loaders", probes)
 	r.Go()
 	c.Count("starts", 1)
 	desc := func() map[string]any {
